@@ -186,7 +186,7 @@ def name(draw):
 def set_cases(draw):
     names = draw(st.lists(name(), min_size=2, max_size=12))
     perm = draw(st.permutations(range(len(names))))
-    ranks = [draw(st.sampled_from([1, 2, 3])) for _ in names]
+    ranks = [draw(st.sampled_from([0, 1, 2, 3])) for _ in names]
     return {"names": names, "perm": list(perm), "ranks": ranks}
 
 
@@ -212,7 +212,7 @@ def numeric_cases(draw):
     else:
         n = draw(st.integers(2, 8))
         case["names"] = [draw(name()) for _ in range(n)]
-        case["ranks"] = [draw(st.sampled_from([1, 2, 3])) for _ in range(n)]
+        case["ranks"] = [draw(st.sampled_from([0, 1, 2, 3])) for _ in range(n)]
     return case
 
 
